@@ -152,6 +152,29 @@ def _has_quantifier(t) -> bool:
     return r
 
 
+def cvc5_check(solver, seconds):
+    """Second opinion on a z3 'unknown': dump the query and ask cvc5."""
+    import os
+    import subprocess
+    import tempfile
+
+    fd, path = tempfile.mkstemp(suffix=".smt2", prefix="pyvc-feas-")
+    try:
+        with os.fdopen(fd, "w") as fh:
+            fh.write("(set-logic ALL)\n" + solver.to_smt2())
+        out = subprocess.run(["/usr/bin/cvc5", "--strings-exp", f"--tlimit={int(seconds * 1000)}", path],
+                             capture_output=True, text=True, timeout=seconds + 5).stdout.strip()
+    except Exception:
+        out = ""
+    finally:
+        try:
+            os.unlink(path)
+        except OSError:
+            pass
+    first = out.splitlines()[0] if out else ""
+    return {"unsat": z3.unsat, "sat": z3.sat}.get(first, z3.unknown)
+
+
 def hard_check(solver, seconds):
     """solver.check() with a watchdog: z3's own timeout is not always honoured by the string solver."""
     import threading
@@ -223,7 +246,7 @@ class Exec:
         path is always sound: its obligations are discharged under the full path condition."""
         self.n_feas += 1
         s = z3.Solver()
-        budget = self.feas_timeout_ms * (5 if deep else 1)
+        budget = self.feas_timeout_ms * (2 if deep else 1)
         s.set("timeout", budget)
         if deep:
             s.add(*bm.AXIOMS)
@@ -231,6 +254,8 @@ class Exec:
         else:
             s.add(*[p for p in pc if not _has_quantifier(p)])
         r = hard_check(s, budget / 1000.0)
+        if deep and r == z3.unknown:
+            r = cvc5_check(s, 4.0)
         return r != z3.unsat
 
     def give_up(self, st, msg):
